@@ -62,6 +62,7 @@ EXPECT = {
     'RW1': [('FixtureLint::Canon', "replace(b'\\xc2\\xb0')"), ('FixtureLint::Canon', 'replace(b"\'\'")')],
     'ZQ1': [('FixtureLint::Dratio', 'tx/ty')],
     'PRT1': [('FixtureLint::From', 'case [[1, 2]]')],
+    'TW1': [('FixtureLint::Far', 'dlon')],
     'CP1': [('FixtureLint::Pad', 'easting/northing')],
     'X7r': [('FixtureShared::HalfFilled', 'alpha_')],
     'K7': [('FixtureRaster::probe', 'B1 filepos column')],
@@ -142,6 +143,9 @@ def run_controls(rules):
         elif r == 'PRT1':
             from .rules import lint
             res = lint.rule_PRT1(fx, None)[0]
+        elif r == 'TW1':
+            from .rules import lint
+            res = lint.rule_TW1(fx, None)[0]
         elif r == 'CP1':
             from .rules import lint
             res = lint.rule_CP1(fx, None)[0]
